@@ -181,4 +181,118 @@ theorem NXActionConnTrack.marshalActs_in_order (sub : V → R (Bytes × V)) :
       rw [show n + (ab.length + ((bss'.take k).map List.length).sum) = n + ab.length + ((bss'.take k).map List.length).sum by omega]
       exact this
 
+/-- "presence flags agree with the ranges that are set": bit i of range_present is set exactly when the i-th optional
+    range (IPv4 min, IPv4 max, IPv6 min, IPv6 max, proto min, proto max) holds a value -/
+def NatPresent (rp : Nat) (v4a v4b v6a v6b : Bytes) (pmin pmax : V) : Prop :=
+  (rp.testBit 0 = true ↔ v4a ≠ []) ∧ (rp.testBit 1 = true ↔ v4b ≠ []) ∧ (rp.testBit 2 = true ↔ v6a ≠ []) ∧
+  (rp.testBit 3 = true ↔ v6b ≠ []) ∧ (rp.testBit 4 = true ↔ ∃ x, pmin = .num x) ∧ (rp.testBit 5 = true ↔ ∃ y, pmax = .num y)
+
+/-- the optional part as the SPECIFICATION describes it: driven by the presence bits -/
+def natOptBits (rp : Nat) (v4a v4b v6a v6b : Bytes) (pmin pmax : V) : Bytes :=
+  (if rp.testBit 0 then natIP4 v4a else []) ++ (if rp.testBit 1 then natIP4 v4b else []) ++
+  (if rp.testBit 2 then natIP6 v6a else []) ++ (if rp.testBit 3 then natIP6 v6b else []) ++
+  (if rp.testBit 4 then natPort pmin else []) ++ (if rp.testBit 5 then natPort pmax else [])
+
+theorem natOpt_presence (rp : Nat) (v4a v4b v6a v6b : Bytes) (pmin pmax : V) (h : NatPresent rp v4a v4b v6a v6b pmin pmax) :
+    natOpt v4a v4b v6a v6b pmin pmax = natOptBits rp v4a v4b v6a v6b pmin pmax := by
+  obtain ⟨h0, h1, h2, h3, h4, h5⟩ := h
+  have hb : ∀ (b : Bool) (x : Bytes) (A : Bytes), (b = true ↔ x ≠ []) → (if x ≠ [] then A else []) = (if b then A else []) := by
+    intro b x A hi
+    by_cases hx : x ≠ []
+    · rw [if_pos hx, if_pos (hi.mpr hx)]
+    · have : ¬ b = true := fun hb => hx (hi.mp hb)
+      rw [if_neg hx, if_neg this]
+  have hp : ∀ (b : Bool) (p : V), (b = true ↔ ∃ x, p = .num x) → natPort p = (if b then natPort p else []) := by
+    intro b p hi
+    by_cases hb' : b = true
+    · rw [if_pos hb']
+    · rw [if_neg hb']
+      cases p with
+      | num x => exact absurd (hi.mpr ⟨x, rfl⟩) hb'
+      | _ => rfl
+  unfold natOpt natOptBits
+  rw [hb _ _ _ h0, hb _ _ _ h1, hb _ _ _ h2, hb _ _ _ h3, ← hp _ _ h4, ← hp _ _ h5]
+
+theorem testBit_set (rp i j : Nat) : (rp ||| 2 ^ i).testBit j = (rp.testBit j || decide (i = j)) := by
+  rw [Nat.testBit_or, Nat.testBit_two_pow]
+
+/-- NewNXActionCTNAT(): no range, no presence bit -/
+theorem natPresent_new : NatPresent 0 [] [] [] [] .nil .nil := by
+  simp [NatPresent]
+
+/-- the four address setters (SetRangeIPv4Min/Max, SetRangeIPv6Min/Max = `setRange i 2^i _ (.bytes x)`, i = 0..3) called
+    with a non-empty address: field and presence bit are set together, the other ranges and bits are untouched -/
+theorem setRange_addr_present (i : Nat) (hi : i < 4) (add : UInt16) (x : Bytes) (hx : x ≠ []) (h pad fl : V) (rp : Nat)
+    (a b c d : Bytes) (e f : V) (v' : V)
+    (hs : NXActionCTNAT.setRange i (2 ^ i) add (.bytes x)
+      (.obj "NXActionCTNAT" [h, pad, fl, .num rp, .bytes a, .bytes b, .bytes c, .bytes d, e, f]) = .ok v')
+    (hp : NatPresent rp a b c d e f) :
+    ∃ h' a' b' c' d', v' = .obj "NXActionCTNAT" [h', pad, fl, .num (rp ||| 2 ^ i), .bytes a', .bytes b', .bytes c', .bytes d', e, f] ∧
+      [a', b', c', d'] = [a, b, c, d].set i x ∧ NatPresent (rp ||| 2 ^ i) a' b' c' d' e f := by
+  unfold NXActionCTNAT.setRange at hs
+  obtain ⟨l, _, hs2⟩ := bind_ok_inv _ _ _ hs
+  obtain ⟨h', _, hs3⟩ := bind_ok_inv _ _ _ hs2
+  obtain ⟨h0, h1, h2, h3, h4, h5⟩ := hp
+  have hcases : i = 0 ∨ i = 1 ∨ i = 2 ∨ i = 3 := by omega
+  rcases hcases with rfl | rfl | rfl | rfl
+  all_goals (
+    simp only [Res.pure_eq, Res.ok.injEq] at hs3
+    subst hs3
+    refine ⟨h', _, _, _, _, rfl, rfl, ?_⟩
+    simp only [NatPresent, testBit_set]
+    generalize rp.testBit 0 = t0 at *
+    generalize rp.testBit 1 = t1 at *
+    generalize rp.testBit 2 = t2 at *
+    generalize rp.testBit 3 = t3 at *
+    generalize rp.testBit 4 = t4 at *
+    generalize rp.testBit 5 = t5 at *
+    simp [h0, h1, h2, h3, h4, h5, hx])
+
+/-- the two port setters (SetRangeProtoMin/Max = `setRange i 2^i _ (.num x)`, i = 4, 5) called with a non-nil port -/
+theorem setRange_port_present (i : Nat) (hi : i = 4 ∨ i = 5) (add : UInt16) (x : Nat) (h pad fl : V) (rp : Nat)
+    (a b c d : Bytes) (e f : V) (v' : V)
+    (hs : NXActionCTNAT.setRange i (2 ^ i) add (.num x)
+      (.obj "NXActionCTNAT" [h, pad, fl, .num rp, .bytes a, .bytes b, .bytes c, .bytes d, e, f]) = .ok v')
+    (hp : NatPresent rp a b c d e f) :
+    ∃ h' e' f', v' = .obj "NXActionCTNAT" [h', pad, fl, .num (rp ||| 2 ^ i), .bytes a, .bytes b, .bytes c, .bytes d, e', f'] ∧
+      [e', f'] = [e, f].set (i - 4) (.num x) ∧ NatPresent (rp ||| 2 ^ i) a b c d e' f' := by
+  unfold NXActionCTNAT.setRange at hs
+  obtain ⟨l, _, hs2⟩ := bind_ok_inv _ _ _ hs
+  obtain ⟨h', _, hs3⟩ := bind_ok_inv _ _ _ hs2
+  obtain ⟨h0, h1, h2, h3, h4, h5⟩ := hp
+  rcases hi with rfl | rfl
+  all_goals (
+    simp only [Res.pure_eq, Res.ok.injEq] at hs3
+    subst hs3
+    refine ⟨h', _, _, rfl, rfl, ?_⟩
+    simp only [NatPresent, testBit_set]
+    generalize rp.testBit 0 = t0 at *
+    generalize rp.testBit 1 = t1 at *
+    generalize rp.testBit 2 = t2 at *
+    generalize rp.testBit 3 = t3 at *
+    generalize rp.testBit 4 = t4 at *
+    generalize rp.testBit 5 = t5 at *
+    simp [h0, h1, h2, h3, h4, h5])
+
+/-- an encoder of the shape "fixed pieces, then copy each element of a list": when everything fits, the result is the
+    fixed bytes, the elements complete and in list order, and zero padding -/
+theorem fill_fixed_list (L : Nat) (fixed : List Piece) (bss : List Bytes) (out : Bytes)
+    (h : fill L (fixed ++ bss.map pCopy) = .ok out) (ht : ∀ p ∈ fixed, p.Tight)
+    (hfit : piecesLen fixed + bss.flatten.length ≤ L) :
+    out = piecesBytes fixed ++ bss.flatten ++ zeros (L - (piecesLen fixed + bss.flatten.length)) ∧
+    InOrderAt out (piecesLen fixed) bss := by
+  have htl : ∀ p ∈ fixed ++ bss.map pCopy, p.Tight := by
+    intro p hp
+    rw [List.mem_append] at hp
+    rcases hp with hp | hp
+    · exact ht p hp
+    · exact tight_map_pCopy bss p hp
+  have hpl : piecesLen (fixed ++ bss.map pCopy) = piecesLen fixed + bss.flatten.length := by
+    rw [piecesLen_append, piecesLen_eq_bytes _ (tight_map_pCopy bss), piecesBytes_map_pCopy]
+  rw [fill_exact _ _ htl (by rw [hpl]; exact hfit)] at h
+  simp only [Res.ok.injEq] at h
+  have hout : out = piecesBytes fixed ++ bss.flatten ++ zeros (L - (piecesLen fixed + bss.flatten.length)) := by
+    rw [← h, piecesBytes_append, piecesBytes_map_pCopy, hpl]
+  exact ⟨hout, inOrderAt_of_eq out _ bss _ _ hout (piecesLen_eq_bytes _ ht).symm⟩
+
 end OFV.Model
